@@ -12,8 +12,8 @@ theorem bits_eq_basisBitstring (n i : Nat) : OQ.C04.bits n i = OQ.Lift.basisBits
 
 theorem fold_state (x : List Int) (m : Nat) :
     ((List.range m).map Int.ofNat).foldl (fun (st : Int × Int) (i : Int) =>
-      (st.1 * 2, st.2 + st.1 * x.getD (Int.toNat ((((x.length : Nat) : Int) - 1) - i)) 0)) (1, 0)
-    = ((2 : Int) ^ m, ((List.range m).map (fun i => (2 : Int) ^ i * x.getD (x.length - 1 - i) 0)).sum) := by
+      (st.1 + st.2 * x.getD (Int.toNat ((((x.length : Nat) : Int) - 1) - i)) 0, st.2 * 2)) (0, 1)
+    = (((List.range m).map (fun i => (2 : Int) ^ i * x.getD (x.length - 1 - i) 0)).sum, (2 : Int) ^ m) := by
   induction m with
   | zero => rfl
   | succ m ih =>
